@@ -32,7 +32,9 @@ each caller takes the lock at most once.  For the pre-fix protocol (`orig`) the 
 (`stale_lock_never_recovers`, `crash_while_holding_is_permanent`).
 OPEN: `liveness_ok` for `orig` (no timeouts under holder progress) — moot since the fix.
 
-Boundary conventions: "current sources" = the version on disk, constant during a run;
+Boundary conventions: "current sources" = the version of the whole source set on disk (parser.c,
+scanner.c, external files: one number encodes the tuple; the real runs vary parser.c and scanner.c
+independently, with and without an external scanner), constant during a run;
 `needs_recompile`'s mtime comparison is abstracted to version inequality; time is abstract
 (a waiter gives up at its `K`-th unsuccessful poll).
 -/
